@@ -106,36 +106,58 @@ def run_one(harness, timeout, target, playback=False, extra=None):
     return res
 
 
+NSLOTS = 6
+
+
+def slot_dir(k):
+    return os.path.join(CACHE, 'kani-shared', 'slot%d' % k)
+
+
 def run_many(pid, harnesses, timeout, jobs=None):
-    """harnesses: list of names. Builds once (first harness, serially) so the shared target dir is warm, then runs the
-    rest in parallel, each in its own copy-on-demand target dir (cargo serialises on a shared one)."""
+    """Runs the harnesses, up to NSLOTS at a time.  Each worker owns one target dir (cargo serialises on a shared one); the
+    slots are shared by all checks and guarded by a file lock, so that concurrently running checks queue up instead of clashing.
+    setup.sh warms the slots (dependency build) once."""
+    import fcntl
     prepare()
-    jobs = jobs or max(1, min(len(harnesses), NCPU // 2))
-    base = os.path.join(CACHE, 'kani-' + pid)
+    jobs = max(1, min(len(harnesses), jobs or NSLOTS))
     out = {}
+    queue = list(harnesses)
+    import threading
+    qlock = threading.Lock()
 
-    def work(ix_h):
-        ix, h = ix_h
-        return run_one(h, timeout, os.path.join(base, 'slot%d' % (ix % jobs)))
-    # slots: each worker thread uses its own target dir; the first use of a slot compiles the dependencies
+    def worker(k):
+        os.makedirs(os.path.join(CACHE, 'kani-shared'), exist_ok=True)
+        with open(os.path.join(CACHE, 'kani-shared', 'slot%d.lock' % k), 'w') as lf:
+            fcntl.flock(lf, fcntl.LOCK_EX)
+            while True:
+                with qlock:
+                    if not queue:
+                        break
+                    h = queue.pop(0)
+                r = run_one(h, timeout, slot_dir(k))
+                log('[kani] %-40s %-8s %6.1fs checks=%d covers=%s' % (h, r.status, r.wall, r.nchecks, ','.join('%s' % v[:5] for v in r.covers.values())))
+                out[h] = r
+            fcntl.flock(lf, fcntl.LOCK_UN)
     with cf.ThreadPoolExecutor(max_workers=jobs) as ex:
-        # partition harnesses over slots so that one slot is never used by two processes at once
-        slots = [[] for _ in range(jobs)]
-        for ix, h in enumerate(harnesses):
-            slots[ix % jobs].append(h)
-
-        def run_slot(k):
-            rs = []
-            for h in slots[k]:
-                rs.append(run_one(h, timeout, os.path.join(base, 'slot%d' % k)))
-                log('[kani] %-40s %-8s %6.1fs checks=%d covers=%s' % (h, rs[-1].status, rs[-1].wall, rs[-1].nchecks,
-                                                                      ','.join('%s' % v[:5] for v in rs[-1].covers.values())))
-            return rs
-        for rs in ex.map(run_slot, range(jobs)):
-            for r in rs:
-                out[r.harness] = r
+        list(ex.map(worker, range(jobs)))
     return out
 
 
+def warm():
+    """Builds the dependencies in every slot by running the cheapest harness there."""
+    prepare()
+    with cf.ThreadPoolExecutor(max_workers=NSLOTS) as ex:
+        rs = list(ex.map(lambda k: run_one('c01::c04_range_new_passes_offsets', 900, slot_dir(k)), range(NSLOTS)))
+    for k, r in enumerate(rs):
+        log('[kani] warm slot %d: %s %.0fs' % (k, r.status, r.wall))
+    return all(r.status == 'success' for r in rs)
+
+
 def playback(pid, harness, timeout):
-    return run_one(harness, timeout, os.path.join(CACHE, 'kani-' + pid, 'slot0'), playback=True)
+    return run_one(harness, timeout, slot_dir(0), playback=True)
+
+
+if __name__ == '__main__':
+    import sys
+    if '--warm' in sys.argv:
+        sys.exit(0 if warm() else 1)
